@@ -162,9 +162,69 @@ def late_failure_stage(ctx):
                 ctx.notes.append(f"known finding {kf['signature']} no longer reproduces")
 
 
+def resettable_stage(ctx):
+    """`ResetM` (Lean) vs the real `Reaction.lower_bound` setter inside one context: the same assignment sequences (numbers the setter accepts
+    and NaN, which passes the setter's check and is refused by the solver interface); compared: which assignments raise, field and solver bound
+    inside the block, whether `__exit__` raises, field and solver bound afterwards."""
+    import json
+    import math
+    import random
+    import warnings
+    from fractions import Fraction
+    from cobra import Model, Reaction, Metabolite
+    rng = random.Random(f"c03-resettable-{ctx.seed}-{ctx.attempt}")
+    n = ctx.scale(60, 1500)
+    lines, reals = [], []
+
+    def view(r):
+        f = r.lower_bound
+        return {"field": "junk" if (isinstance(f, float) and math.isnan(f)) else str(Fraction(f)), "solver": str(Fraction(r.forward_variable.lb))}
+    with warnings.catch_warnings():
+        warnings.simplefilter("ignore")
+        for _ in range(n):
+            q0 = rng.choice([0, 1, 2, 5])
+            vals = [rng.choice(["0", "1", "2", "3", "5", "7", "junk", "junk"]) for _ in range(rng.randint(1, 5))]
+            if rng.random() < 0.5:
+                vals = [v for v in vals if v != "junk"] + (["junk"] if rng.random() < 0.7 else [])      # the shape the theorem is about
+            m = Model("t")
+            r = Reaction("R")
+            r.add_metabolites({Metabolite("a_c"): -1, Metabolite("b_c"): 1})
+            r.bounds = (q0, 1000)
+            m.add_reactions([r])
+            oks, exit_ok, inside = [], True, None
+            try:
+                with m:
+                    for v in vals:
+                        try:
+                            r.lower_bound = float("nan") if v == "junk" else float(v)
+                            oks.append(True)
+                        except Exception:
+                            oks.append(False)
+                    inside = view(r)
+            except Exception:
+                exit_ok = False
+            reals.append({"oks": oks, "inside": inside, "exit_ok": exit_ok, "after": view(r)})
+            lines.append(json.dumps({"build": "resettable", "q0": str(q0), "vals": vals}))
+    outs = [json.loads(l) for l in common.run_driver_persistent("auxprob", lines)]
+    bad = 0
+    shapes = {"refused_last_or_none": 0, "assignment_after_refused": 0}
+    for line, real, o in zip(lines, reals, outs):
+        vals = json.loads(line)["vals"]
+        shapes["assignment_after_refused" if "junk" in vals[:-1] else "refused_last_or_none"] += 1
+        if "bad-line" in o or {k: o[k] for k in ("oks", "inside", "exit_ok", "after")} != real:
+            bad += 1
+            if bad <= 2:
+                ctx.broken.append({"kind": "correspondence", "name": "resettable bound setter vs ResetM", "detail": f"{line}: model {o}, code {real}"})
+            if "junk" not in vals[:-1] and (not real["exit_ok"] or real["after"] != {"field": str(Fraction(json.loads(line)["q0"])), "solver": str(Fraction(json.loads(line)["q0"]))}):
+                # not the known-finding shape, and the real setter does not restore: the property itself fails on this sequence
+                ctx.violations.append({"engine": "resettable bound setter inside a context", "assignments": vals, "q0": json.loads(line)["q0"], "observed": real})
+    ctx.coverage["resettable_sequences"] = {"compared": len(outs), "mismatches": bad, "shapes": shapes}
+
+
 def pre_stages(ctx):
     helper_stage(ctx)
     late_failure_stage(ctx)
+    resettable_stage(ctx)
 
 
 def run(ctx):
